@@ -58,6 +58,16 @@ def chk_isi(rec, be):
             out.append(_mm(sub, "%s %s raised %s" % (sub, hdr, r)))
         else:
             _cmp_arrays(out, sub, rec, hdr, (r.x, r.y), (X, Y), (sg, 1.0), sh)
+    if list(a) == list(b):
+        # the same object as both arguments is a pair like any other (e.g. the diagonal of a double loop)
+        t = train(a, ts, te)
+        st, r = call(pyspike.isi_profile, t, t, MRTS=float(m))
+        n += 1
+        sub = "isi_profile[%s,one object as both arguments]" % be
+        if st != "ok":
+            out.append(_mm(sub, "%s %s raised %s" % (sub, hdr, r)))
+        else:
+            _cmp_arrays(out, sub, rec, hdr, (r.x, r.y), (X, Y), (1.0, 1.0), 0.0)
     return n, out
 
 
@@ -87,6 +97,15 @@ def chk_spike(rec, be):
             out.append(_mm(sub, "%s %s raised %s" % (sub, hdr, r)))
         else:
             _cmp_arrays(out, sub, rec, hdr, (r.x, r.y1, r.y2), (X, Y1, Y2), (sg, 1.0, 1.0), sh)
+    if list(a) == list(b):
+        t = train(a, ts, te)
+        st, r = call(pyspike.spike_profile, t, t, MRTS=float(m), RI=ri)
+        n += 1
+        sub = "spike_profile[%s,one object as both arguments]" % be
+        if st != "ok":
+            out.append(_mm(sub, "%s %s raised %s" % (sub, hdr, r)))
+        else:
+            _cmp_arrays(out, sub, rec, hdr, (r.x, r.y1, r.y2), (X, Y1, Y2), (1.0, 1.0, 1.0), 0.0)
     return n, out
 
 
@@ -140,6 +159,15 @@ def chk_sync(rec, be):
             out.append(_mm(sub, "%s %s raised %s" % (sub, hdr, r)))
         else:
             _cmp_disc(out, sub, hdr, (r.x, r.y, r.mp), exp, sg, sh)
+    if list(a) == list(b):
+        t = train(a, ts, te)
+        st, r = call(pyspike.spike_sync_profile, t, t, max_tau=_mt(rec, 1.0), MRTS=float(m))
+        n += 1
+        sub = "spike_sync_profile[%s,one object as both arguments]" % be
+        if st != "ok":
+            out.append(_mm(sub, "%s %s raised %s" % (sub, hdr, r)))
+        else:
+            _cmp_disc(out, sub, hdr, (r.x, r.y, r.mp), exp, 1.0, 0.0)
     return n, out
 
 
@@ -176,24 +204,25 @@ def chk_order(rec, be):
     exp = (rec["x"], rec["ord"], rec["mp"])
     d1e = [float(v) for v in rec["d1"]]
     d2e = [float(v) for v in rec["d2"]]
-    for k, sg in enumerate(rec.get("_sigmas", SIGMAS)):
+    frames = [(sg_, 0.0) for sg_ in rec["_sigmas"]] if "_sigmas" in rec else rec.get("_frames", FRAMES)
+    for k, (sg, sh) in enumerate(frames):
         mt = _mt(rec, sg)
         mtu = None if (mt == 0 and k % 2 == 0) else mt
-        A, B = arr(a, sg), arr(b, sg)
+        A, B = arr(a, sg, sh), arr(b, sg, sh)
         f = DPB.spike_train_order_profile_python if be == "py" else \
             shim("cython_directionality", "spike_train_order_profile_cython")
-        st, r = call(f, A, B, ts * sg, te * sg, mt, float(m) * sg)
+        st, r = call(f, A, B, ts * sg + sh, te * sg + sh, mt, float(m) * sg)
         n += 1
-        sub = "order-kernel[%s,s=%g]" % (be, sg)
+        sub = "order-kernel[%s,s=%g,shift=%g]" % (be, sg, sh)
         if st != "ok":
             out.append(_mm(sub, "%s %s raised %s" % (sub, hdr, r)))
         else:
-            _cmp_disc(out, sub, hdr, r, exp, sg)
+            _cmp_disc(out, sub, hdr, r, exp, sg, sh)
         f = DPB.spike_directionality_profile_python if be == "py" else \
             shim("cython_directionality", "spike_directionality_profiles_cython")
-        st, r = call(f, A, B, ts * sg, te * sg, mt, float(m) * sg)
+        st, r = call(f, A, B, ts * sg + sh, te * sg + sh, mt, float(m) * sg)
         n += 1
-        sub = "dir-kernel[%s,s=%g]" % (be, sg)
+        sub = "dir-kernel[%s,s=%g,shift=%g]" % (be, sg, sh)
         if st != "ok":
             out.append(_mm(sub, "%s %s raised %s" % (sub, hdr, r)))
         else:
@@ -201,17 +230,17 @@ def chk_order(rec, be):
             if g1 != d1e or g2 != d2e:
                 out.append(_mm(sub, "%s %s: d1,d2 = %s,%s expected %s,%s" % (sub, hdr, g1, g2, d1e, d2e),
                                [g1, g2], [d1e, d2e]))
-        s1, s2 = train(a, ts, te, sg), train(b, ts, te, sg)
+        s1, s2 = train(a, ts, te, sg, sh), train(b, ts, te, sg, sh)
         st, r = call(pyspike.spike_train_order_profile, s1, s2, max_tau=mtu, MRTS=float(m) * sg)
         n += 1
-        sub = "spike_train_order_profile[%s,s=%g,max_tau=%r]" % (be, sg, mtu)
+        sub = "spike_train_order_profile[%s,s=%g,shift=%g,max_tau=%r]" % (be, sg, sh, mtu)
         if st != "ok":
             out.append(_mm(sub, "%s %s raised %s" % (sub, hdr, r)))
         else:
-            _cmp_disc(out, sub, hdr, (r.x, r.y, r.mp), exp, sg)
+            _cmp_disc(out, sub, hdr, (r.x, r.y, r.mp), exp, sg, sh)
         st, r = call(pyspike.spike_directionality_values, s1, s2, max_tau=mtu, MRTS=float(m) * sg)
         n += 1
-        sub = "spike_directionality_values[%s,s=%g]" % (be, sg)
+        sub = "spike_directionality_values[%s,s=%g,shift=%g]" % (be, sg, sh)
         if st != "ok":
             out.append(_mm(sub, "%s %s raised %s" % (sub, hdr, r)))
         else:
@@ -223,7 +252,7 @@ def chk_order(rec, be):
         dsum = sum(d1e)
         st, r = call(pyspike.spike_directionality, s1, s2, normalize=False, max_tau=mtu, MRTS=float(m) * sg)
         n += 1
-        sub = "spike_directionality[%s,s=%g,normalize=False]" % (be, sg)
+        sub = "spike_directionality[%s,s=%g,shift=%g,normalize=False]" % (be, sg, sh)
         if st != "ok":
             out.append(_mm(sub, "%s %s raised %s" % (sub, hdr, r)))
         elif not close(r, dsum):
@@ -231,11 +260,44 @@ def chk_order(rec, be):
         if len(a) > 0:
             st, r = call(pyspike.spike_directionality, s1, s2, max_tau=mtu, MRTS=float(m) * sg)
             n += 1
-            sub = "spike_directionality[%s,s=%g]" % (be, sg)
+            sub = "spike_directionality[%s,s=%g,shift=%g]" % (be, sg, sh)
             if st != "ok":
                 out.append(_mm(sub, "%s %s raised %s" % (sub, hdr, r)))
             elif not close(r, dsum / len(a)):
                 out.append(_mm(sub, "%s %s = %r expected %s" % (sub, hdr, r, dsum / len(a)), float(r), dsum / len(a)))
+    # decimal frame (unit 0.1, not exact in floats): the specification's exact ties are then decided by
+    # rounding, so nothing is compared with the specification -- but SPIKE-Sync, SPIKE-Order and the
+    # directionality must still decide every tie the SAME way (they are defined on the same coincidences)
+    if "_sigmas" not in rec:
+        sg = 0.1
+        mt = _mt(rec, sg)
+        s1, s2 = train(a, ts, te, sg), train(b, ts, te, sg)
+        kw = dict(max_tau=mt if mt > 0 else None, MRTS=float(m) * sg)
+        stc, pc = call(pyspike.spike_sync_profile, s1, s2, **kw)
+        sto, po = call(pyspike.spike_train_order_profile, s1, s2, **kw)
+        std, dv = call(pyspike.spike_directionality_values, s1, s2, **kw)
+        n += 1
+        sub = "coincidences[%s,unit 0.1]" % be
+        if stc != "ok" or sto != "ok" or std != "ok":
+            if not (stc == sto == std):
+                out.append(_mm(sub, "%s %s: spike_sync_profile %s, spike_train_order_profile %s, spike_directionality_values %s" % (
+                    sub, hdr, pc if stc != "ok" else "ok", po if sto != "ok" else "ok", dv if std != "ok" else "ok")))
+        else:
+            shared = set(s1.spikes.tolist()) & set(s2.spikes.tolist())
+            cx, cy, ox, oy = list(pc.x), list(pc.y), list(po.x), list(po.y)
+            if cx != ox or list(pc.mp) != list(po.mp):
+                out.append(_mm(sub, "%s %s: SPIKE-Sync and SPIKE-Order profiles have different events: %s / %s" % (sub, hdr, fl(cx), fl(ox))))
+            else:
+                for k in range(1, len(cx) - 1):
+                    if cx[k] not in shared and abs(oy[k]) != cy[k]:
+                        out.append(_mm(sub, "%s %s: at t=%r SPIKE-Sync says %g, SPIKE-Order says %g: the two measures "
+                                            "use different coincidences" % (sub, hdr, cx[k], cy[k], oy[k])))
+                        break
+                nz = sum(1 for k in range(1, len(cx) - 1) if cx[k] not in shared and cy[k] != 0)
+                dn = sum(1 for v in list(dv[0]) + list(dv[1]) if v != 0)
+                if nz != dn:
+                    out.append(_mm(sub, "%s %s: %d coincident spikes in the SPIKE-Sync profile, %d non-zero directionality values" % (
+                        sub, hdr, nz, dn)))
     return n, out
 
 
@@ -243,3 +305,5 @@ import checkers_rel  # noqa: E402,F401  (registers the relational checkers)
 import checkers_func  # noqa: E402,F401
 import checkers_multi  # noqa: E402,F401
 import checkers_io  # noqa: E402,F401
+import checkers_simann  # noqa: E402,F401
+import checkers_objects  # noqa: E402,F401
